@@ -1,7 +1,7 @@
 #!/bin/sh
 # run_benign.sh <diff> <ID> [more IDs] -- run quick checks against scratch worktree /tmp/seed/x1 with a behaviour-preserving change applied
 DIFF=$1; shift
-WT=/tmp/seed/x1
+WT=${BENIGN_WT:-/tmp/seed/x1}
 cd /verif || exit 2
 git -C "$WT" checkout -q -- . && git -C "$WT" apply "$DIFF" || { echo "PATCH DOES NOT APPLY"; exit 2; }
 for ID in "$@"; do
